@@ -45,7 +45,7 @@ SIDES = [4, 5, 6, 7, 8, 9, 12]
 def cells(tier, seed):
     rnd = core.rng_for(seed, PROP, tier)
     waves = WAVES_Q if tier == 'quick' else [w for w in refs.all_wavelets() if refs.flen(w) <= 20]
-    reps = 1 if tier == 'quick' else 8
+    reps = 1 if tier == 'quick' else 30
     out = []
     for w in waves:
         for mode in refs.MODES:
